@@ -881,6 +881,61 @@ func c19RoundTrips(c *Ctx) {
 			ids = append(ids, map[string]any{"kind": "Wrap.throughScript", "x": []int64{1, 0, 0, 1, 1, 1}, "got": got})
 		}
 		ids = append(ids, map[string]any{"kind": "WithLoaders.ran", "x": []int64{11}, "got": []int64{int64(loaded)}})
+		// variadic methods reached through a LOCAL receiver (host object with a native variadic method; script struct with
+		// a variadic method), called with 0, 1, 2 surplus arguments and in spread form
+		{
+			vo := &variadicObj{}
+			vm2 := goat.New(goat.WithStdout(io.Discard))
+			vm2.Set("main.HostObj", goat.Wrap(vo))
+			goat.VerifSetBudget(200000)
+			_, err := vm2.Eval(fstest.MapFS{}, "v.go", "package main\ntype R struct{ K int }\nfunc (r *R) Cat(p string, xs ...int) int {\n\tt := len(xs)*100 + len(p) + r.K\n\tfor _, x := range xs {\n\t\tt += x\n\t}\n\treturn t\n}\nfunc UseHost() (int, int, int, int) {\n\th := HostObj\n\tys := []int{4, 5}\n\treturn h.Sum(10), h.Sum(10, 1), h.Sum(10, 1, 2), h.Sum(10, ys...)\n}\nfunc UseScript(k int) (int, int, int, int) {\n\tr := &R{K: k}\n\tys := []int{4, 5}\n\treturn r.Cat(\"ab\"), r.Cat(\"ab\", 1), r.Cat(\"ab\", 1, 2), r.Cat(\"ab\", ys...)\n}\nfunc count(x float64) int { return 7 }\nfunc pair(a int) (float64, int) { return 1, 2 }\nfunc none(m map[string]int) []int { return nil }\nfunc mixed(s string, f float64, b uint8) (uint8, float64, int8) { return 200, 3, 100 }\n")
+			var got []int64
+			var tys []string
+			if err == nil {
+				for _, fn := range []string{"main.UseHost", "main.UseScript"} {
+					var rets []goat.Value
+					if fn == "main.UseHost" {
+						rets, err = vm2.Call(fn, 4)
+					} else {
+						rets, err = vm2.Call(fn, 4, goat.Int(7))
+					}
+					if err != nil {
+						break
+					}
+					for _, r := range rets {
+						got = append(got, int64(r.Int()))
+					}
+				}
+			}
+			// results arrive with their DECLARED types (an untyped constant or nil in the return statement adopts the type of
+			// the result at its position, whatever the parameter at that position is)
+			if err == nil {
+				calls := []struct {
+					fn   string
+					n    int
+					args []goat.Value
+				}{{"main.count", 1, []goat.Value{goat.Float64(2.5)}}, {"main.pair", 2, []goat.Value{goat.Int(1)}}, {"main.none", 1, []goat.Value{goat.NewMap(goat.TypeString, goat.TypeInt32, nil)}},
+					{"main.mixed", 3, []goat.Value{goat.String("s"), goat.Float64(1.5), goat.Uint8(3)}}}
+				for _, cl := range calls {
+					var rets []goat.Value
+					rets, err = vm2.Call(cl.fn, cl.n, cl.args...)
+					if err != nil {
+						break
+					}
+					for _, r := range rets {
+						tys = append(tys, vm2.VerifTypeOf(r))
+					}
+				}
+			}
+			goat.VerifSetBudget(-1)
+			if err != nil {
+				c.violate(hashKey("variadic-method-local"), "variadic method through a local receiver / typed results: "+firstLine(err.Error()), map[string]any{"error": err.Error()})
+			} else {
+				ids = append(ids, map[string]any{"kind": "VariadicMethod.localReceiver", "x": []int64{10, 1011, 2013, 2019, 9, 110, 212, 218}, "got": got})
+				ids = append(ids, map[string]any{"kind": "Call.declaredResultTypes", "x": bytesToInts("int32 float64 int32 []int32 uint8 float64 int8"), "got": bytesToInts(strings.Join(tys, " "))})
+			}
+			c.Evaluations += 16
+		}
 		c.Evaluations += 8
 	}
 	badIDs := classifySharded(c, "Trace_Values", "Trace_Values.cfg", ids, 4)
@@ -908,4 +963,20 @@ func bytesToInts(s string) []int64 {
 func floatBits(f float64) []int64 {
 	b := math.Float64bits(f)
 	return []int64{int64(int32(uint32(b >> 32))), int64(int32(uint32(b)))}
+}
+
+// variadicObj: a host object whose method Sum is a native variadic function
+type variadicObj struct{ goat.Object }
+
+func (o *variadicObj) GetAttr(k string) goat.Value {
+	if k != "Sum" {
+		return goat.Nil()
+	}
+	return goat.NewFunc(2, 1, func(vm *goat.VM, args []goat.Value, vargs ...goat.Value) []goat.Value {
+		t := args[0].Int() + 1000*len(vargs)
+		for _, v := range vargs {
+			t += v.Int()
+		}
+		return []goat.Value{goat.Int(t)}
+	})
 }
